@@ -52,6 +52,22 @@ def gen_var(rng):
     return spec
 
 
+def gen_valid_var(rng):
+    """rejects degenerate chains (a stage whose propagated std / width is 0, i.e. the side conditions `chainOK` of the
+    round-trip theorem fail): amisc itself refuses those with 'Transform args may have missing values'"""
+    for _ in range(50):
+        spec = gen_var(rng)
+        try:
+            v = make_var(spec)
+            z = v.normalize(np.array(v.get_domain(), dtype=float))
+            hyper_ok = np.all(np.isfinite(z)) and abs(z[1] - z[0]) > 1e-9
+            if hyper_ok:
+                return spec
+        except (RuntimeError, FloatingPointError, ZeroDivisionError):
+            continue
+    raise RuntimeError('could not generate a valid variable spec')
+
+
 def make_var(spec, name='v'):
     kw = {}
     d = spec['dist']
@@ -130,7 +146,7 @@ def run_variable_case(ctx, res, spec, lines, post):
 def run_sampling_case(ctx, res, seed):
     """samples drawn for a system lie inside the normalised domains"""
     rng = random.Random(seed)
-    specs = [gen_var(rng) for _ in range(3)]
+    specs = [gen_valid_var(rng) for _ in range(3)]
     vars_ = [make_var(s, f'x{i}') for i, s in enumerate(specs)]
 
     def m(inputs):
@@ -231,7 +247,7 @@ def run(ctx: core.Ctx, only=None) -> core.Result:
     if only is not None:
         items = [o.get('input', o) for o in only]
     else:
-        items = core.corpus_cases('C16') + [{'spec': gen_var(ctx.rng)} for _ in range(ctx.scale(60, 800))] + \
+        items = core.corpus_cases('C16') + [{'spec': gen_valid_var(ctx.rng)} for _ in range(ctx.scale(60, 800))] + \
             [{'sampling': ctx.rng.randrange(10 ** 6)} for _ in range(ctx.scale(4, 40))] + \
             [{'svd': ctx.rng.randrange(10 ** 6)} for _ in range(ctx.scale(4, 40))] + \
             [{'time': s} for s in range(ctx.scale(4, 8))]
